@@ -240,6 +240,24 @@ def run(ctx):
                     meta.append({'m': m, 'i': i, 'S': list(S)})
     model = common.LeanDriver('Thresha').run(lines)
     ctx.compare('_f_S_i vs MpycV.Thresha.fSi', impl, model, meta)
+    runtime_threshold_change(ctx)
+
+
+def runtime_threshold_change(ctx):
+    """PRSS inside the runtime across a change of mpc.threshold (two sessions in one process): the PRFs must belong to the
+    keys of the CURRENT threshold, otherwise the parties' pseudorandom shares are inconsistent.  Uses the share-consistency
+    machinery of C11 (harness/props/c11.py two_sessions)."""
+    from props import c11
+    rng = ctx.subrng('threshold-change')
+    ctx._max_lines = 0
+    for (m, t1, t2) in [(3, 1, 0), (5, 2, 1)] + ([(5, 1, 2), (4, 1, 0), (7, 3, 2)] if ctx.thorough else []):
+        seed = rng.randrange(10**9)
+        msg = c11.two_sessions(ctx, 'arith', m, t1, t2, seed, [], [], [])
+        ctx.count('runtime-threshold-change')
+        if msg:
+            ctx.violation('C15: PRSS after a threshold change: ' + msg,
+                          {'kind': 'two-sessions', 'program': 'arith', 'm': m, 't': t1, 't2': t2, 'seed': seed})
+            return
 
 
 def search(ctx):
@@ -265,6 +283,11 @@ def replay(ctx, data):
         v = F.canon(thresha._f_S_i(F.field, m, i, S))
         want = f_S_at(F, m, S, F.of.from_int(i + 1))
         return v == want, f'_f_S_i -> {v}, product formula -> {want}'
+    if data.get('kind') == 'two-sessions':
+        from props import c11
+        ctx._max_lines = 0
+        msg = c11.two_sessions(ctx, data['program'], data['m'], data['t'], data['t2'], data['seed'], [], [], [])
+        return msg is None, msg or 'ok'
     if data.get('kind') != 'prss':
         return True, 'nothing to re-execute'
     F = Fld.from_desc(data['field'])
